@@ -15,22 +15,14 @@ func init() { register("C10", checkC10) }
 // Vetted residuals of the BeginBlock inventory (g4): one named construct and one line of reason each.
 // The table is closed: a site that is neither discharged nor listed fails the check.
 var c10Vetted = map[string]string{
-	"coinsub @ x/cfedistributor/keeper.Keeper.StartDistributionProcess : sdk/types.DecCoins.Sub":                 "share*inflow is subtracted from the remainder; shares are validated to sum below 1, so the remainder stays non-negative (numeric argument of C03/C04, not decided here)",
-	"coinsub @ x/cfedistributor/keeper.Keeper.StartDistributionProcess : sdk/types.DecCoins.Sub #2":              "burn share: same argument as above (burn share + shares < 1 by CheckIfSharesSumIsBetween0And1)",
-	"coinsub @ x/cfedistributor/keeper.Keeper.prepareCoinToDistributeForMainAccount : sdk/types.DecCoins.Sub":    "main balance minus recorded remains: non-negative exactly when the books match (C03); C03.order guards the one structural way to break it",
-	"coinsub @ x/cfedistributor/keeper.Keeper.prepareCoinToDistributeForMainAccount : sdk/types.DecCoins.Sub #2": "minus what this sub-distributor already swept into the main account (or took over from an internal state, whose remains were zeroed in the list at the same time): the balance grew by exactly that amount, so the difference stays the un-booked part (C03)",
-	"index @ x/cfedistributor/keeper.Keeper.addSharesToState : index []x/cfedistributor/types.State":             "pos is the >=0 result of the state search over the same list (closures built over the list that is passed in) or len-1 right after append",
-	"index @ x/cfedistributor/keeper.Keeper.addSharesToState : index []x/cfedistributor/types.State #2":          "same position as above (read-modify-write of the same element)",
-	"panic @ x/cfeminter.BeginBlocker : panic(error)":                                                            "Mint fails only if the current period is missing from the parameters (excluded by C10.currentperiod) or the bank refuses to mint/forward between registered module accounts (permissions checked by g3)",
-	"panic @ x/cfeminter/keeper.Keeper.GetMinterState : panic(\"stored minter state should not have bee...)":     "the minter state key is written by InitGenesis (C12.fields) and never deleted (no STORE.delete on it)",
-	"quo @ x/cfeminter/types.LinearMinting.AmountToMint : sdk/types.Dec.QuoInt64":                                "divisor = period length in ms; validation orders end strictly after start and C10 bounds periods to >= 1 s",
-	"quo @ x/cfeminter/types.LinearMinting.CalculateInflation : sdk/types.Dec.QuoInt64":                          "divisor = period length in ns; same argument",
+	"index @ x/cfedistributor/keeper.Keeper.addSharesToState : index []x/cfedistributor/types.State":         "pos is the >=0 result of the state search over the same list (closures built over the list that is passed in) or len-1 right after append",
+	"index @ x/cfedistributor/keeper.Keeper.addSharesToState : index []x/cfedistributor/types.State #2":      "same position as above (read-modify-write of the same element)",
+	"panic @ x/cfeminter.BeginBlocker : panic(error)":                                                        "Mint fails only if the current period is missing from the parameters (excluded by C10.currentperiod) or the bank refuses to mint/forward between registered module accounts (permissions checked by g3)",
+	"panic @ x/cfeminter/keeper.Keeper.GetMinterState : panic(\"stored minter state should not have bee...)": "the minter state key is written by InitGenesis (C12.fields) and never deleted (no STORE.delete on it)",
 }
 
 // Vetted dereferences of may-be-nil fields.
 var c10VettedNil = map[string]string{
-	"Minter.EndTime @ x/cfeminter/keeper.Keeper.mint":                     "previous period: only a non-last period can be 'previous', and validateEndTimeExistance requires EndTime on every non-last period",
-	"Minter.EndTime @ x/cfeminter/keeper.Keeper.GetCurrentInflation":      "previous period: same argument",
 	"Minter.EndTime @ x/cfeminter/types.LinearMinting.AmountToMint":       "Minter.validate requires EndTime for a LinearMinting period",
 	"Minter.EndTime @ x/cfeminter/types.LinearMinting.CalculateInflation": "Minter.validate requires EndTime for a LinearMinting period",
 }
@@ -114,64 +106,72 @@ func (w *World) mayBeNilFields(exportRoots []*ssa.Function) []nilField {
 		}
 	}
 	sort.Slice(out, func(i, j int) bool { return out[i].T.Obj().Name()+out[i].Field < out[j].T.Obj().Name()+out[j].Field })
-	// correlation: `if !s.B && s.F == nil { return err }`  =>  F is non-nil whenever B is false
+	// correlation: validation rejects (B == want && F == nil) for a bool field B of the same struct  =>  F is non-nil
+	// whenever B == want. Decided semantically: the validator is explored under that assumption and every live
+	// return must carry a non-nil error (whatever the spelling: if-chain, switch, early returns).
 	for k := range out {
 		nf := &out[k]
+		st, isStruct := nf.T.Underlying().(*types.Struct)
+		if !isStruct {
+			continue
+		}
 		for _, fn := range w.ProdFuncs() {
 			if !strings.HasPrefix(strings.ToLower(fn.Name()), "validate") || !strings.Contains(funcName(fn), "/types.") {
 				continue
 			}
+			// the validator must look at the field at all
+			tests := false
 			for _, b := range fn.Blocks {
-				i := blockIf(b)
-				if i == nil {
-					continue
-				}
-				base, neg := stripNot(i.Cond)
-				bo, ok := base.(*ssa.BinOp)
-				if !ok || (bo.Op != token.EQL && bo.Op != token.NEQ) {
-					continue
-				}
-				var fv ssa.Value
-				if isNilConst(bo.Y) {
-					fv = bo.X
-				} else if isNilConst(bo.X) {
-					fv = bo.Y
-				}
-				if fv == nil {
-					continue
-				}
-				T, f, ok := fieldOfValue(fv)
-				if !ok || f != nf.Field || T.Obj() != nf.T.Obj() {
-					continue
-				}
-				nilSucc := 0
-				if bo.Op == token.NEQ {
-					nilSucc = 1
-				}
-				if neg {
-					nilSucc = 1 - nilSucc
-				}
-				if !FailsFrom(b.Succs[nilSucc]) {
-					continue
-				}
-				// which bool field of the same struct governs reaching this test?
-				st := nf.T.Underlying().(*types.Struct)
-				for fi := 0; fi < st.NumFields(); fi++ {
-					bf := st.Field(fi)
-					if bt, ok := bf.Type().Underlying().(*types.Basic); !ok || bt.Kind() != types.Bool {
-						continue
-					}
-					for _, want := range []bool{true, false} {
-						edges := EdgesWhere(fn, func(c ssa.Value) (bool, bool) {
-							T2, f2, ok := fieldOfValue(c)
-							if ok && f2 == bf.Name() && T2.Obj() == nf.T.Obj() {
-								return want, true
-							}
-							return false, false
-						})
-						if MustPass(fn, edges, b) {
-							nf.CorrField, nf.CorrVal = bf.Name(), want
+				for _, in := range b.Instrs {
+					if v, ok := in.(ssa.Value); ok {
+						if T, f, ok := fieldOfValue(v); ok && f == nf.Field && T.Obj() == nf.T.Obj() {
+							tests = true
 						}
+					}
+				}
+			}
+			if !tests {
+				continue
+			}
+			for fi := 0; fi < st.NumFields(); fi++ {
+				bf := st.Field(fi)
+				if bt, ok := bf.Type().Underlying().(*types.Basic); !ok || bt.Kind() != types.Bool {
+					continue
+				}
+				for _, want := range []bool{true, false} {
+					want := want
+					live := ReachUnder(fn, func(base ssa.Value) (bool, bool) {
+						if T2, f2, ok := fieldOfValue(base); ok && f2 == bf.Name() && T2.Obj() == nf.T.Obj() {
+							return want, true
+						}
+						if bo, ok := base.(*ssa.BinOp); ok && (bo.Op == token.EQL || bo.Op == token.NEQ) {
+							var fv ssa.Value
+							if isNilConst(bo.Y) {
+								fv = bo.X
+							} else if isNilConst(bo.X) {
+								fv = bo.Y
+							}
+							if fv != nil {
+								if T2, f2, ok := fieldOfValue(fv); ok && f2 == nf.Field && T2.Obj() == nf.T.Obj() {
+									return bo.Op == token.EQL, true // F == nil is assumed
+								}
+							}
+						}
+						return false, false
+					})
+					nret, allFail := 0, true
+					for _, ret := range Returns(fn) {
+						if !live.Blocks[ret.Block()] {
+							continue
+						}
+						nret++
+						rv := retVals(ret)
+						if len(rv) == 0 || !nonNilAt(rv[len(rv)-1], ret.Block(), 0) {
+							allFail = false
+						}
+					}
+					if nret > 0 && allFail {
+						nf.CorrField, nf.CorrVal = bf.Name(), want
 					}
 				}
 			}
@@ -389,6 +389,19 @@ func (w *World) checkMayBeNil(r *Report, rule string, nf nilField, roots []*ssa.
 				r.OK(rule, key, pos, fmt.Sprintf("dereference dominated by %s == %v on the same record; validation rejects nil in that case", nf.CorrField, nf.CorrVal))
 				continue
 			}
+			// the previous period always has an end: only a non-last period can be 'previous', and
+			// validateEndTimeExistance requires EndTime on every non-last period. Recognised by origin (result #1 of
+			// the shared selection, directly or through a parameter at every call site), not by function name.
+			if nf.Field == "EndTime" && nf.T.Obj().Name() == "Minter" {
+				if fa := fieldAddrOfLoad(v); fa != nil && w.isPreviousMinter(fn, fa.X, 0) {
+					pkey := fmt.Sprintf("%s.%s of the previous period @ %s", nf.T.Obj().Name(), nf.Field, funcName(fn))
+					if !perFn[pkey] {
+						perFn[pkey] = true
+						r.Assume(rule, pkey, pos, "vetted: previous period: only a non-last period can be 'previous', and validateEndTimeExistance requires EndTime on every non-last period")
+					}
+					continue
+				}
+			}
 			if why, ok := vetted[key]; ok {
 				if !perFn[key] {
 					perFn[key] = true
@@ -598,4 +611,37 @@ func checkC10(w *World, r *Report) {
 		}
 	}
 	r.Check(okSet, "C10.perm", "the validator's table is app.maccPerms", "", "SetMaccPerms(maccPerms) is called from the app package", "the distributor's module-account table is not set from app.maccPerms")
+}
+
+// isPreviousMinter: v is result #1 of getCurrentAndPreviousMinter, in fn or - when v is a parameter - at every call site.
+func (w *World) isPreviousMinter(fn *ssa.Function, v ssa.Value, depth int) bool {
+	if depth > 2 {
+		return false
+	}
+	if ex, ok := v.(*ssa.Extract); ok && ex.Index == 1 {
+		if c, ok := ex.Tuple.(*ssa.Call); ok && strings.HasSuffix(callName(c.Common()), "keeper.getCurrentAndPreviousMinter") {
+			return true
+		}
+	}
+	p, ok := v.(*ssa.Parameter)
+	if !ok {
+		return false
+	}
+	idx := -1
+	for i, x := range fn.Params {
+		if x == p {
+			idx = i
+		}
+	}
+	callers := w.CG().Callers[fn]
+	if idx < 0 || len(callers) == 0 {
+		return false
+	}
+	for _, cs := range callers {
+		a := cs.Common().Args
+		if cs.Common().IsInvoke() || idx >= len(a) || !w.isPreviousMinter(cs.Caller, a[idx], depth+1) {
+			return false
+		}
+	}
+	return true
 }
